@@ -800,13 +800,16 @@ theorem C11_layer_never_shadows_cell_attribute {s : State} (h : Reach s) (hi : s
 
 /-! ## the emptiness layer / mask is actual emptiness -/
 
-/-- After every history in which the user does not himself overwrite, re-point, alias or remove the
-    built-in `empty` layer (`Op.safe`; the legacy mask cannot be touched at all): the emptiness view
-    (`grid.empty.data` / `grid.empty_mask`, the array `only_empty` uses) is 1 exactly at the cells no
-    agent is in and 0 elsewhere — through any interleaving of placements, moves and removals with layer
-    operations, for SingleGrid, MultiGrid (several agents per cell) and cell spaces with capacities. -/
+/-- After every history in which the user does not himself overwrite, re-point or remove the built-in `empty` layer /
+    the legacy mask (`safeHist`: every op is safe *in the state it is issued in* — taking a reference to
+    `grid.empty.data` / `grid.empty_mask` and reading through it is allowed, a write through a reference is unsafe
+    exactly when that reference aliases the emptiness array): the emptiness view (`grid.empty.data` /
+    `grid.empty_mask`, the array `only_empty` uses) is 1 exactly at the cells no agent is in and 0 elsewhere — through
+    any interleaving of placements, moves and removals with layer operations, for SingleGrid, MultiGrid (several
+    agents per cell) and cell spaces with capacities.  `C11_unsafe_write_is_the_only_way` below: the hypothesis cannot
+    be dropped, and what it excludes is exactly the user's own write. -/
 theorem C11_empty_view_is_emptiness (impl : Impl) (dims : List Nat) (cap : Nat) (ops : List Op)
-    (hs : ∀ op ∈ ops, op.safe impl = true) :
+    (hs : safeHist (init impl dims cap) ops) :
     ∃ e, (run (init impl dims cap) ops).1.emptyArr? = some e ∧
       ∀ c, e c = boolInt ((run (init impl dims cap) ops).1.isEmptyCell c) := by
   have hinv := Inv_run (WF_init impl dims cap) (EmpInv_init impl dims cap) ops hs
@@ -820,7 +823,7 @@ theorem C11_empty_view_is_emptiness (impl : Impl) (dims : List Nat) (cap : Nat) 
 
 /-- the two read-outs of the `empties` op (view and actual emptiness) coincide after such a history -/
 theorem C11_empties_readout_agrees (impl : Impl) (dims : List Nat) (cap : Nat) (ops : List Op)
-    (hs : ∀ op ∈ ops, op.safe impl = true) :
+    (hs : safeHist (init impl dims cap) ops) :
     empties (run (init impl dims cap) ops).1 =
       .emp (some (((cells (run (init impl dims cap) ops).1.dims).map
               (run (init impl dims cap) ops).1.isEmptyCell).map boolInt))
@@ -841,6 +844,30 @@ theorem C11_empties_readout_agrees (impl : Impl) (dims : List Nat) (cap : Nat) (
     simp only [Option.some.injEq] at this
     rw [this, hfun]
     simp [List.map_map, Function.comp_def]
+
+/-- What `safeHist` excludes is exactly the user's own overwrite: one op that is unsafe in a state where the view is right
+    can only be a write to / re-pointing / removal of the built-in layer through the layer (id 0), through the cell
+    attribute `empty`, or through a reference that aliases the emptiness array — and such a write does break the view
+    (`grid.empty_mask[0, 0] = False` on an empty SingleGrid makes `only_empty` miss the cell: the example below). -/
+theorem C11_unsafe_write_is_the_only_way {s : State} {op : Op} (h : op.safeAt s = false) :
+    (∃ h' c v a d, op = .hset h' c v ∧ s.handles.lookup h' = some (a, d) ∧ a = 0) ∨
+    (s.impl = .new ∧ ((∃ c v, op = .cellSet "empty" c v) ∨ op = .detach "empty" ∨
+      (∃ c v, op = .layerSet 0 c v) ∨ (∃ c v, op = .cellSet2 0 c v) ∨ (∃ v cond, op = .setCells 0 v cond) ∨
+      (∃ hd cond, op = .setFrom 0 hd cond) ∨ (∃ vec f cond, op = .modifyCells 0 vec f cond) ∨
+      (∃ f cond rd, op = .modifyT 0 f cond rd) ∨ (∃ vec o x cond, op = .modifyU 0 vec o x cond) ∨
+      (∃ c f, op = .modifyCell 0 c f) ∨ (∃ c o x, op = .modifyCellU 0 c o x))) := by
+  cases op
+  case hset hd c v =>
+    left
+    simp only [Op.safeAt] at h
+    split at h
+    · next a d hlk => exact ⟨hd, c, v, a, d, rfl, hlk, by simpa using h⟩
+    · simp at h
+  all_goals right
+  all_goals simp only [Op.safeAt, Op.safe, Bool.or_eq_false_iff, bne_eq_false_iff_eq, reduceCtorEq] at h
+  all_goals obtain ⟨hi, rfl⟩ := h
+  all_goals refine ⟨hi, ?_⟩
+  all_goals simp
 
 /-! ## `select_cells` is exact -/
 
@@ -927,7 +954,7 @@ theorem C11_select_list_is_mask {s : State} {q : Query} {list : List Coord} {mas
     that leaves the built-in layer alone, the `only_empty` filter of `select_cells` is *exactly* "no agent
     is in the cell" (this is what defect S16 — and S1 for MultiGrid — broke). -/
 theorem C11_only_empty_is_actual_emptiness (impl : Impl) (dims : List Nat) (cap : Nat) (ops : List Op)
-    (hs : ∀ op ∈ ops, op.safe impl = true) (q : Query) (hq : q.onlyEmpty = true) (c : Coord) :
+    (hs : safeHist (init impl dims cap) ops) (q : Query) (hq : q.onlyEmpty = true) (c : Coord) :
     q.filters (run (init impl dims cap) ops).1 c ↔
       (∀ k ∈ q.masks, k c = true) ∧ (run (init impl dims cap) ops).1.isEmptyCell c = true ∧
       (∀ np ∈ q.conds, ∃ a, (run (init impl dims cap) ops).1.namedArr? np.1 = some a ∧ np.2 (a c) = true) := by
@@ -1292,6 +1319,20 @@ example : noWrite 1 (run (init .new [2, 2] 0) [.create "a" .int 0, .cellSet "a" 
 example : cellGet (run (init .new [2, 2] 0) [.create "a" .int 0, .cellSet "a" [0, 1] 7,
     .create "b" .int 1, .modifyCells 2 true (some (· + 1)) none, .detach "a", .place 0 [0, 1], .attach 1]).1 "a" [0, 1]
     = .val 7 := by decide
+/-- safe histories that hold a reference to the emptiness array: a cell space whose `grid.empty.data` is grabbed, read
+    after a placement (the reference is live: it shows the 0), next to a write through a reference to *another* layer;
+    a SingleGrid whose `empty_mask` is grabbed and read -/
+example : safeHist (init .new [2, 2] 1) [.grab 5 0, .place 0 [0, 1], .hget 5 [0, 1], .create "a" .int 0, .grab 1 1,
+    .hset 1 [0, 0] 7, .move 0 [1, 1], .hdump 5, .empties] := by decide
+example : (run (init .new [2, 2] 1) [.grab 5 0, .place 0 [0, 1], .hget 5 [0, 1], .create "a" .int 0, .grab 1 1,
+    .hset 1 [0, 0] 7, .move 0 [1, 1], .hdump 5]).2.getLast? = some (.arr [1, 1, 1, 0]) := by decide
+example : safeHist (init .single [2, 2] 0) [.grabMask 0, .place 3 [1, 0], .hget 0 [1, 0], .remove 3, .hdump 0] := by decide
+/-- … and the one thing that is excluded: `grid.empty_mask[0, 0] = False` on an empty SingleGrid is unsafe in that state,
+    the view is then wrong at that cell and `only_empty` misses it -/
+example : Op.safeAt (run (init .single [2, 2] 0) [.grabMask 0]).1 (.hset 0 [0, 0] 0) = false ∧
+    (run (init .single [2, 2] 0) [.grabMask 0, .hset 0 [0, 0] 0, .empties, .select [] true [] [] none]).2 =
+    [.ok, .ok, .emp (some [0, 1, 1, 1]) [true, true, true, true],
+     .sel [[0, 1], [1, 0], [1, 1]] [false, true, true, true]] := by decide
 /-- legacy MultiGrid with two agents in one cell: the mask turns true only when the last one leaves -/
 example : ((run (init .multi [2, 2] 0) [.place 0 [0, 1], .place 1 [0, 1], .remove 0, .empties, .remove 1, .empties]).2.drop 3)
     = [.emp (some [1, 0, 1, 1]) [true, false, true, true], .ok, .emp (some [1, 1, 1, 1]) [true, true, true, true]] := by
